@@ -1,6 +1,7 @@
 /-
-  C08 fields_roundtrip: each of the six channel readers, run on the byte layout of a raw record, reports exactly the
-  record's view; a whole channel buffer decodes to the views of its records.
+  C08 fields_roundtrip: each of the six channel readers, run on the byte layout of a raw record (Drx.Vwsc.Spec.enc*),
+  reports exactly the record's view; one small lemma per field read (the generated offsets `Drx.Gen.Score.*` against the
+  position of the field in the spec encoder), then the reader.  Text produced by harness/tools/gen_vwsc_fields_proof.py.
 -/
 import Drx.Vwsc
 import Drx.VwscSpec
@@ -9,52 +10,368 @@ import DrxProofs.Vwsc
 namespace Drx.Vwsc
 open Drx Drx.Vwsc.Spec Drx.VwscLayout
 
-theorem encS2_pair (v : Int) : ∃ a b, encS .be 2 v = [a, b] :=
-  ⟨UInt8.ofNat (ofSigned 16 v / 256 % 256), UInt8.ofNat (ofSigned 16 v % 256), by simp [encS, encOrd, encBE]⟩
-theorem encU16_pair (n : Nat) : ∃ a b, encU16 n = [a, b] :=
-  ⟨UInt8.ofNat (n / 256 % 256), UInt8.ofNat (n % 256), by simp [encU16, encOrd, encBE]⟩
-
-theorem unpack_pair {v : Int} {a b : UInt8} (e : encS .be 2 v = [a, b]) (h : In16 v) : unpackS .be 2 [a, b] = .ok v := by
-  rw [← e]; exact unpackS_encS .be 2 (by decide) v (in16_b h).1 (in16_b h).2
-
-theorem unpack_pairU {n : Nat} {a b : UInt8} (e : encU16 n = [a, b]) (h : n < 65536) :
-    unpackS .be 2 [a, b] = .ok (toSigned 16 n) := by
-  rw [← e]; simp [unpackS, encU16, ordNat_encOrd_of_lt .be 2 n (by omega)]
+@[simp] theorem encU16_length (n : Nat) : (encU16 n).length = 2 := by simp [encU16]
 
 theorem toSigned16_mod (n : Nat) (h : n < 65536) : toSigned 16 n % 65536 = (n : Int) := by
   unfold toSigned
   split <;> omega
 
-set_option maxRecDepth 8000 in
-theorem d4ReadSprite_bytes (a0 b0 fg bg flags ink a1 b1 a2 b2 a3 b3 a4 b4 a5 b5 a6 b6 a7 b7 : UInt8) (v0 v1 v2 v3 v4 v5 v6 v7 : Int)
-    (u0 : unpackS .be 2 [a0, b0] = .ok v0) (u1 : unpackS .be 2 [a1, b1] = .ok v1) (u2 : unpackS .be 2 [a2, b2] = .ok v2)
-    (u3 : unpackS .be 2 [a3, b3] = .ok v3) (u4 : unpackS .be 2 [a4, b4] = .ok v4) (u5 : unpackS .be 2 [a5, b5] = .ok v5)
-    (u6 : unpackS .be 2 [a6, b6] = .ok v6) (u7 : unpackS .be 2 [a7, b7] = .ok v7) :
-    d4ReadSprite [a0, b0, fg, bg, flags, ink, a1, b1, a2, b2, a3, b3, a4, b4, a5, b5, a6, b6, a7, b7]
-      = .ok (if v1 > 0 then
-          some ⟨v0, v1, b2i fg, b2i bg, b2i ink % 64, some (b2i flags), v2, v3, v4, v5, b2i ink / 64 % 2,
-                v7 % 65536 / 32768 % 2 ≠ 0, v7 % 65536 / 16384 % 2 ≠ 0⟩
-        else none) := by
-  simp [d4ReadSprite, checkAll, Gen.Score.d4Sprite, Gen.Score.d4Sprite_spriteType, Gen.Score.d4Sprite_foregroundColor,
-    Gen.Score.d4Sprite_backgroundColor, Gen.Score.d4Sprite_flags, Gen.Score.d4Sprite_ink_byte, Gen.Score.d4Sprite_castId,
-    Gen.Score.d4Sprite_y, Gen.Score.d4Sprite_x, Gen.Score.d4Sprite_height, Gen.Score.d4Sprite_width, Gen.Score.d4Sprite_flag1,
-    Gen.Score.d4Sprite_flag2, Fld.int, Fld.raw, getS, slice, byteAt, u0, u1, u2, u3, u4, u5, u6, u7, bind, Except.bind,
-    Except.map, b2i, pure, Except.pure]
+/-- a signed 16-bit field laid out after `a` is read back by a generated field descriptor with that offset -/
+theorem raw_s16_at (a c : Bytes) (v : Int) (h : In16 v) (off : Nat) (hoff : off = a.length) :
+    (⟨off, .s16, .raw⟩ : Fld).raw (a ++ (encS .be 2 v ++ c)) = .ok v := by
+  simp only [Fld.raw]; exact getS2_at a c v h off hoff
+
+theorem raw_u16_at (a c : Bytes) (n : Nat) (h : n < 65536) (off : Nat) (hoff : off = a.length) :
+    (⟨off, .s16, .raw⟩ : Fld).raw (a ++ (encU16 n ++ c)) = .ok (toSigned 16 n) := by
+  simp only [Fld.raw, getS]
+  rw [slice_mid a _ c off (off + 2) hoff (by simp [hoff])]
+  simp [unpackS, encU16, ordNat_encOrd_of_lt .be 2 n (by omega)]
+
+theorem raw_u8_at (a c : Bytes) (b : UInt8) (off : Nat) (hoff : off = a.length) :
+    (⟨off, .u8, .raw⟩ : Fld).raw (a ++ (b :: c)) = .ok (b2i b) := by
+  subst hoff; simp [Fld.raw, byteAt, b2i, Except.map]
+
+theorem int_of_raw (f : Fld) (d : Bytes) (h : f.post = .raw) : f.int d = f.raw d := by
+  unfold Fld.int; rw [h]
+
+/-! ### d4ReadMain -/
+
+theorem encMainD4_length (s : RawMainD4) (h : s.Valid) : (encMainD4 s).length = 20 := by
+  simp [encMainD4]
+
+theorem d4Main_r_flags (s : RawMainD4) (h : s.Valid) : Gen.Score.d4Main_flags.raw (encMainD4 s) = .ok (s.flags) := by
+  have e : encMainD4 s = ([]) ++ (encS .be 2 s.flags ++ ([s.transDuration] ++ [s.transChunk] ++ [s.fps] ++ [s.transition] ++ encS .be 2 s.sound1 ++ encS .be 2 s.sound2 ++ encS .be 2 s.soundFlags ++ encS .be 2 s.unknown1 ++ encS .be 2 s.unknown2 ++ encS .be 2 s.script ++ encS .be 2 s.unknown3)) := by simp [encMainD4, List.append_assoc]
+  rw [e]; exact raw_s16_at _ _ _ (h.1) _ (by simp)
+
+theorem d4Main_r_transition_duration (s : RawMainD4) (h : s.Valid) : Gen.Score.d4Main_transition_duration.raw (encMainD4 s) = .ok (b2i s.transDuration) := by
+  have e : encMainD4 s = (encS .be 2 s.flags) ++ (s.transDuration :: ([s.transChunk] ++ [s.fps] ++ [s.transition] ++ encS .be 2 s.sound1 ++ encS .be 2 s.sound2 ++ encS .be 2 s.soundFlags ++ encS .be 2 s.unknown1 ++ encS .be 2 s.unknown2 ++ encS .be 2 s.script ++ encS .be 2 s.unknown3)) := by simp [encMainD4, List.append_assoc]
+  rw [e]; exact raw_u8_at _ _ _ _ (by simp)
+
+theorem d4Main_r_transition_chunk_size (s : RawMainD4) (h : s.Valid) : Gen.Score.d4Main_transition_chunk_size.raw (encMainD4 s) = .ok (b2i s.transChunk) := by
+  have e : encMainD4 s = (encS .be 2 s.flags ++ [s.transDuration]) ++ (s.transChunk :: ([s.fps] ++ [s.transition] ++ encS .be 2 s.sound1 ++ encS .be 2 s.sound2 ++ encS .be 2 s.soundFlags ++ encS .be 2 s.unknown1 ++ encS .be 2 s.unknown2 ++ encS .be 2 s.script ++ encS .be 2 s.unknown3)) := by simp [encMainD4, List.append_assoc]
+  rw [e]; exact raw_u8_at _ _ _ _ (by simp)
+
+theorem d4Main_r_fps (s : RawMainD4) (h : s.Valid) : Gen.Score.d4Main_fps.raw (encMainD4 s) = .ok (b2i s.fps) := by
+  have e : encMainD4 s = (encS .be 2 s.flags ++ [s.transDuration] ++ [s.transChunk]) ++ (s.fps :: ([s.transition] ++ encS .be 2 s.sound1 ++ encS .be 2 s.sound2 ++ encS .be 2 s.soundFlags ++ encS .be 2 s.unknown1 ++ encS .be 2 s.unknown2 ++ encS .be 2 s.script ++ encS .be 2 s.unknown3)) := by simp [encMainD4, List.append_assoc]
+  rw [e]; exact raw_u8_at _ _ _ _ (by simp)
+
+theorem d4Main_r_transition_id (s : RawMainD4) (h : s.Valid) : Gen.Score.d4Main_transition_id.raw (encMainD4 s) = .ok (b2i s.transition) := by
+  have e : encMainD4 s = (encS .be 2 s.flags ++ [s.transDuration] ++ [s.transChunk] ++ [s.fps]) ++ (s.transition :: (encS .be 2 s.sound1 ++ encS .be 2 s.sound2 ++ encS .be 2 s.soundFlags ++ encS .be 2 s.unknown1 ++ encS .be 2 s.unknown2 ++ encS .be 2 s.script ++ encS .be 2 s.unknown3)) := by simp [encMainD4, List.append_assoc]
+  rw [e]; exact raw_u8_at _ _ _ _ (by simp)
+
+theorem d4Main_r_sound1_cast (s : RawMainD4) (h : s.Valid) : Gen.Score.d4Main_sound1_cast.raw (encMainD4 s) = .ok (s.sound1) := by
+  have e : encMainD4 s = (encS .be 2 s.flags ++ [s.transDuration] ++ [s.transChunk] ++ [s.fps] ++ [s.transition]) ++ (encS .be 2 s.sound1 ++ (encS .be 2 s.sound2 ++ encS .be 2 s.soundFlags ++ encS .be 2 s.unknown1 ++ encS .be 2 s.unknown2 ++ encS .be 2 s.script ++ encS .be 2 s.unknown3)) := by simp [encMainD4, List.append_assoc]
+  rw [e]; exact raw_s16_at _ _ _ (h.2.1) _ (by simp)
+
+theorem d4Main_r_sound2_cast (s : RawMainD4) (h : s.Valid) : Gen.Score.d4Main_sound2_cast.raw (encMainD4 s) = .ok (s.sound2) := by
+  have e : encMainD4 s = (encS .be 2 s.flags ++ [s.transDuration] ++ [s.transChunk] ++ [s.fps] ++ [s.transition] ++ encS .be 2 s.sound1) ++ (encS .be 2 s.sound2 ++ (encS .be 2 s.soundFlags ++ encS .be 2 s.unknown1 ++ encS .be 2 s.unknown2 ++ encS .be 2 s.script ++ encS .be 2 s.unknown3)) := by simp [encMainD4, List.append_assoc]
+  rw [e]; exact raw_s16_at _ _ _ (h.2.2.1) _ (by simp)
+
+theorem d4Main_r_sound_flags (s : RawMainD4) (h : s.Valid) : Gen.Score.d4Main_sound_flags.raw (encMainD4 s) = .ok (s.soundFlags) := by
+  have e : encMainD4 s = (encS .be 2 s.flags ++ [s.transDuration] ++ [s.transChunk] ++ [s.fps] ++ [s.transition] ++ encS .be 2 s.sound1 ++ encS .be 2 s.sound2) ++ (encS .be 2 s.soundFlags ++ (encS .be 2 s.unknown1 ++ encS .be 2 s.unknown2 ++ encS .be 2 s.script ++ encS .be 2 s.unknown3)) := by simp [encMainD4, List.append_assoc]
+  rw [e]; exact raw_s16_at _ _ _ (h.2.2.2.1) _ (by simp)
+
+theorem d4Main_r_unknown1 (s : RawMainD4) (h : s.Valid) : Gen.Score.d4Main_unknown1.raw (encMainD4 s) = .ok (s.unknown1) := by
+  have e : encMainD4 s = (encS .be 2 s.flags ++ [s.transDuration] ++ [s.transChunk] ++ [s.fps] ++ [s.transition] ++ encS .be 2 s.sound1 ++ encS .be 2 s.sound2 ++ encS .be 2 s.soundFlags) ++ (encS .be 2 s.unknown1 ++ (encS .be 2 s.unknown2 ++ encS .be 2 s.script ++ encS .be 2 s.unknown3)) := by simp [encMainD4, List.append_assoc]
+  rw [e]; exact raw_s16_at _ _ _ (h.2.2.2.2.1) _ (by simp)
+
+theorem d4Main_r_unknown2 (s : RawMainD4) (h : s.Valid) : Gen.Score.d4Main_unknown2.raw (encMainD4 s) = .ok (s.unknown2) := by
+  have e : encMainD4 s = (encS .be 2 s.flags ++ [s.transDuration] ++ [s.transChunk] ++ [s.fps] ++ [s.transition] ++ encS .be 2 s.sound1 ++ encS .be 2 s.sound2 ++ encS .be 2 s.soundFlags ++ encS .be 2 s.unknown1) ++ (encS .be 2 s.unknown2 ++ (encS .be 2 s.script ++ encS .be 2 s.unknown3)) := by simp [encMainD4, List.append_assoc]
+  rw [e]; exact raw_s16_at _ _ _ (h.2.2.2.2.2.1) _ (by simp)
+
+theorem d4Main_r_script (s : RawMainD4) (h : s.Valid) : Gen.Score.d4Main_script.raw (encMainD4 s) = .ok (s.script) := by
+  have e : encMainD4 s = (encS .be 2 s.flags ++ [s.transDuration] ++ [s.transChunk] ++ [s.fps] ++ [s.transition] ++ encS .be 2 s.sound1 ++ encS .be 2 s.sound2 ++ encS .be 2 s.soundFlags ++ encS .be 2 s.unknown1 ++ encS .be 2 s.unknown2) ++ (encS .be 2 s.script ++ (encS .be 2 s.unknown3)) := by simp [encMainD4, List.append_assoc]
+  rw [e]; exact raw_s16_at _ _ _ (h.2.2.2.2.2.2.1) _ (by simp)
+
+theorem d4Main_r_unknown3 (s : RawMainD4) (h : s.Valid) : Gen.Score.d4Main_unknown3.raw (encMainD4 s) = .ok (s.unknown3) := by
+  have e : encMainD4 s = (encS .be 2 s.flags ++ [s.transDuration] ++ [s.transChunk] ++ [s.fps] ++ [s.transition] ++ encS .be 2 s.sound1 ++ encS .be 2 s.sound2 ++ encS .be 2 s.soundFlags ++ encS .be 2 s.unknown1 ++ encS .be 2 s.unknown2 ++ encS .be 2 s.script) ++ (encS .be 2 s.unknown3 ++ ([])) := by simp [encMainD4, List.append_assoc]
+  rw [e]; exact raw_s16_at _ _ _ (h.2.2.2.2.2.2.2) _ (by simp)
+
+theorem d4Main_check (s : RawMainD4) (h : s.Valid) : checkAll Gen.Score.d4Main (encMainD4 s) = .ok () := by
+  simp only [Gen.Score.d4Main, checkAll, d4Main_r_flags s h, d4Main_r_transition_duration s h, d4Main_r_transition_chunk_size s h, d4Main_r_fps s h, d4Main_r_transition_id s h, d4Main_r_sound1_cast s h, d4Main_r_sound2_cast s h, d4Main_r_sound_flags s h, d4Main_r_unknown1 s h, d4Main_r_unknown2 s h, d4Main_r_script s h, d4Main_r_unknown3 s h, bind, Except.bind]
+
+theorem d4ReadMain_enc (s : RawMainD4) (h : s.Valid) : d4ReadMain (encMainD4 s) = .ok (viewMainD4 s) := by
+  simp only [d4ReadMain, d4Main_check s h, int_of_raw _ _ (rfl : Gen.Score.d4Main_transition_duration.post = .raw), d4Main_r_transition_duration s h, int_of_raw _ _ (rfl : Gen.Score.d4Main_transition_chunk_size.post = .raw), d4Main_r_transition_chunk_size s h, int_of_raw _ _ (rfl : Gen.Score.d4Main_fps.post = .raw), d4Main_r_fps s h, d4Main_r_transition_id s h, int_of_raw _ _ (rfl : Gen.Score.d4Main_sound1_cast.post = .raw), d4Main_r_sound1_cast s h, int_of_raw _ _ (rfl : Gen.Score.d4Main_sound2_cast.post = .raw), d4Main_r_sound2_cast s h, int_of_raw _ _ (rfl : Gen.Score.d4Main_script.post = .raw), d4Main_r_script s h, bind, Except.bind, pure, Except.pure, viewMainD4]
   split <;> rfl
 
+/-! ### d4ReadPalette -/
+
+theorem encPalD4_length (s : RawPalD4) (h : s.Valid) : (encPalD4 s).length = 20 := by
+  simp [encPalD4]
+
+theorem d4Palette_r_palette_id (s : RawPalD4) (h : s.Valid) : Gen.Score.d4Palette_palette_id.raw (encPalD4 s) = .ok (s.paletteId) := by
+  have e : encPalD4 s = ([]) ++ (encS .be 2 s.paletteId ++ (encS .be 2 s.unknown2 ++ [s.opcode] ++ [s.fps] ++ encS .be 2 s.unknown4 ++ encS .be 2 s.cycles ++ encS .be 2 s.unknown6 ++ encS .be 2 s.unknown7 ++ encS .be 2 s.unknown8 ++ encS .be 2 s.unknown9 ++ [s.pad0] ++ [s.pad1])) := by simp [encPalD4, List.append_assoc]
+  rw [e]; exact raw_s16_at _ _ _ (h.1) _ (by simp)
+
+theorem d4Palette_r_unknown2 (s : RawPalD4) (h : s.Valid) : Gen.Score.d4Palette_unknown2.raw (encPalD4 s) = .ok (s.unknown2) := by
+  have e : encPalD4 s = (encS .be 2 s.paletteId) ++ (encS .be 2 s.unknown2 ++ ([s.opcode] ++ [s.fps] ++ encS .be 2 s.unknown4 ++ encS .be 2 s.cycles ++ encS .be 2 s.unknown6 ++ encS .be 2 s.unknown7 ++ encS .be 2 s.unknown8 ++ encS .be 2 s.unknown9 ++ [s.pad0] ++ [s.pad1])) := by simp [encPalD4, List.append_assoc]
+  rw [e]; exact raw_s16_at _ _ _ (h.2.1) _ (by simp)
+
+theorem d4Palette_r_operation_code (s : RawPalD4) (h : s.Valid) : Gen.Score.d4Palette_operation_code.raw (encPalD4 s) = .ok (b2i s.opcode) := by
+  have e : encPalD4 s = (encS .be 2 s.paletteId ++ encS .be 2 s.unknown2) ++ (s.opcode :: ([s.fps] ++ encS .be 2 s.unknown4 ++ encS .be 2 s.cycles ++ encS .be 2 s.unknown6 ++ encS .be 2 s.unknown7 ++ encS .be 2 s.unknown8 ++ encS .be 2 s.unknown9 ++ [s.pad0] ++ [s.pad1])) := by simp [encPalD4, List.append_assoc]
+  rw [e]; exact raw_u8_at _ _ _ _ (by simp)
+
+theorem d4Palette_r_fps (s : RawPalD4) (h : s.Valid) : Gen.Score.d4Palette_fps.raw (encPalD4 s) = .ok (b2i s.fps) := by
+  have e : encPalD4 s = (encS .be 2 s.paletteId ++ encS .be 2 s.unknown2 ++ [s.opcode]) ++ (s.fps :: (encS .be 2 s.unknown4 ++ encS .be 2 s.cycles ++ encS .be 2 s.unknown6 ++ encS .be 2 s.unknown7 ++ encS .be 2 s.unknown8 ++ encS .be 2 s.unknown9 ++ [s.pad0] ++ [s.pad1])) := by simp [encPalD4, List.append_assoc]
+  rw [e]; exact raw_u8_at _ _ _ _ (by simp)
+
+theorem d4Palette_r_unknown4 (s : RawPalD4) (h : s.Valid) : Gen.Score.d4Palette_unknown4.raw (encPalD4 s) = .ok (s.unknown4) := by
+  have e : encPalD4 s = (encS .be 2 s.paletteId ++ encS .be 2 s.unknown2 ++ [s.opcode] ++ [s.fps]) ++ (encS .be 2 s.unknown4 ++ (encS .be 2 s.cycles ++ encS .be 2 s.unknown6 ++ encS .be 2 s.unknown7 ++ encS .be 2 s.unknown8 ++ encS .be 2 s.unknown9 ++ [s.pad0] ++ [s.pad1])) := by simp [encPalD4, List.append_assoc]
+  rw [e]; exact raw_s16_at _ _ _ (h.2.2.1) _ (by simp)
+
+theorem d4Palette_r_cycles (s : RawPalD4) (h : s.Valid) : Gen.Score.d4Palette_cycles.raw (encPalD4 s) = .ok (s.cycles) := by
+  have e : encPalD4 s = (encS .be 2 s.paletteId ++ encS .be 2 s.unknown2 ++ [s.opcode] ++ [s.fps] ++ encS .be 2 s.unknown4) ++ (encS .be 2 s.cycles ++ (encS .be 2 s.unknown6 ++ encS .be 2 s.unknown7 ++ encS .be 2 s.unknown8 ++ encS .be 2 s.unknown9 ++ [s.pad0] ++ [s.pad1])) := by simp [encPalD4, List.append_assoc]
+  rw [e]; exact raw_s16_at _ _ _ (h.2.2.2.1) _ (by simp)
+
+theorem d4Palette_r_unknown6 (s : RawPalD4) (h : s.Valid) : Gen.Score.d4Palette_unknown6.raw (encPalD4 s) = .ok (s.unknown6) := by
+  have e : encPalD4 s = (encS .be 2 s.paletteId ++ encS .be 2 s.unknown2 ++ [s.opcode] ++ [s.fps] ++ encS .be 2 s.unknown4 ++ encS .be 2 s.cycles) ++ (encS .be 2 s.unknown6 ++ (encS .be 2 s.unknown7 ++ encS .be 2 s.unknown8 ++ encS .be 2 s.unknown9 ++ [s.pad0] ++ [s.pad1])) := by simp [encPalD4, List.append_assoc]
+  rw [e]; exact raw_s16_at _ _ _ (h.2.2.2.2.1) _ (by simp)
+
+theorem d4Palette_r_unknown7 (s : RawPalD4) (h : s.Valid) : Gen.Score.d4Palette_unknown7.raw (encPalD4 s) = .ok (s.unknown7) := by
+  have e : encPalD4 s = (encS .be 2 s.paletteId ++ encS .be 2 s.unknown2 ++ [s.opcode] ++ [s.fps] ++ encS .be 2 s.unknown4 ++ encS .be 2 s.cycles ++ encS .be 2 s.unknown6) ++ (encS .be 2 s.unknown7 ++ (encS .be 2 s.unknown8 ++ encS .be 2 s.unknown9 ++ [s.pad0] ++ [s.pad1])) := by simp [encPalD4, List.append_assoc]
+  rw [e]; exact raw_s16_at _ _ _ (h.2.2.2.2.2.1) _ (by simp)
+
+theorem d4Palette_r_unknown8 (s : RawPalD4) (h : s.Valid) : Gen.Score.d4Palette_unknown8.raw (encPalD4 s) = .ok (s.unknown8) := by
+  have e : encPalD4 s = (encS .be 2 s.paletteId ++ encS .be 2 s.unknown2 ++ [s.opcode] ++ [s.fps] ++ encS .be 2 s.unknown4 ++ encS .be 2 s.cycles ++ encS .be 2 s.unknown6 ++ encS .be 2 s.unknown7) ++ (encS .be 2 s.unknown8 ++ (encS .be 2 s.unknown9 ++ [s.pad0] ++ [s.pad1])) := by simp [encPalD4, List.append_assoc]
+  rw [e]; exact raw_s16_at _ _ _ (h.2.2.2.2.2.2.1) _ (by simp)
+
+theorem d4Palette_r_unknown9 (s : RawPalD4) (h : s.Valid) : Gen.Score.d4Palette_unknown9.raw (encPalD4 s) = .ok (s.unknown9) := by
+  have e : encPalD4 s = (encS .be 2 s.paletteId ++ encS .be 2 s.unknown2 ++ [s.opcode] ++ [s.fps] ++ encS .be 2 s.unknown4 ++ encS .be 2 s.cycles ++ encS .be 2 s.unknown6 ++ encS .be 2 s.unknown7 ++ encS .be 2 s.unknown8) ++ (encS .be 2 s.unknown9 ++ ([s.pad0] ++ [s.pad1])) := by simp [encPalD4, List.append_assoc]
+  rw [e]; exact raw_s16_at _ _ _ (h.2.2.2.2.2.2.2) _ (by simp)
+
+theorem d4Palette_check (s : RawPalD4) (h : s.Valid) : checkAll Gen.Score.d4Palette (encPalD4 s) = .ok () := by
+  simp only [Gen.Score.d4Palette, checkAll, d4Palette_r_palette_id s h, d4Palette_r_unknown2 s h, d4Palette_r_operation_code s h, d4Palette_r_fps s h, d4Palette_r_unknown4 s h, d4Palette_r_cycles s h, d4Palette_r_unknown6 s h, d4Palette_r_unknown7 s h, d4Palette_r_unknown8 s h, d4Palette_r_unknown9 s h, bind, Except.bind]
+
+theorem d4ReadPalette_enc (s : RawPalD4) (h : s.Valid) : d4ReadPalette (encPalD4 s) = .ok (viewPalD4 s) := by
+  simp only [d4ReadPalette, d4Palette_check s h, int_of_raw _ _ (rfl : Gen.Score.d4Palette_palette_id.post = .raw), d4Palette_r_palette_id s h, int_of_raw _ _ (rfl : Gen.Score.d4Palette_operation_code.post = .raw), d4Palette_r_operation_code s h, int_of_raw _ _ (rfl : Gen.Score.d4Palette_fps.post = .raw), d4Palette_r_fps s h, int_of_raw _ _ (rfl : Gen.Score.d4Palette_cycles.post = .raw), d4Palette_r_cycles s h, bind, Except.bind, pure, Except.pure, viewPalD4]
+  split <;> rfl
+
+/-! ### d4ReadSprite -/
+
+theorem encSpriteD4_length (s : RawSpriteD4) (h : s.Valid) : (encSpriteD4 s).length = 20 := by
+  simp [encSpriteD4]
+
+theorem d4Sprite_r_spriteType (s : RawSpriteD4) (h : s.Valid) : Gen.Score.d4Sprite_spriteType.raw (encSpriteD4 s) = .ok (s.spriteType) := by
+  have e : encSpriteD4 s = ([]) ++ (encS .be 2 s.spriteType ++ ([s.fg] ++ [s.bg] ++ [s.flags] ++ [s.ink] ++ encS .be 2 s.castId ++ encS .be 2 s.y ++ encS .be 2 s.x ++ encS .be 2 s.height ++ encS .be 2 s.width ++ encU16 s.flag1 ++ encU16 s.flag2)) := by simp [encSpriteD4, List.append_assoc]
+  rw [e]; exact raw_s16_at _ _ _ (h.1) _ (by simp)
+
+theorem d4Sprite_r_foregroundColor (s : RawSpriteD4) (h : s.Valid) : Gen.Score.d4Sprite_foregroundColor.raw (encSpriteD4 s) = .ok (b2i s.fg) := by
+  have e : encSpriteD4 s = (encS .be 2 s.spriteType) ++ (s.fg :: ([s.bg] ++ [s.flags] ++ [s.ink] ++ encS .be 2 s.castId ++ encS .be 2 s.y ++ encS .be 2 s.x ++ encS .be 2 s.height ++ encS .be 2 s.width ++ encU16 s.flag1 ++ encU16 s.flag2)) := by simp [encSpriteD4, List.append_assoc]
+  rw [e]; exact raw_u8_at _ _ _ _ (by simp)
+
+theorem d4Sprite_r_backgroundColor (s : RawSpriteD4) (h : s.Valid) : Gen.Score.d4Sprite_backgroundColor.raw (encSpriteD4 s) = .ok (b2i s.bg) := by
+  have e : encSpriteD4 s = (encS .be 2 s.spriteType ++ [s.fg]) ++ (s.bg :: ([s.flags] ++ [s.ink] ++ encS .be 2 s.castId ++ encS .be 2 s.y ++ encS .be 2 s.x ++ encS .be 2 s.height ++ encS .be 2 s.width ++ encU16 s.flag1 ++ encU16 s.flag2)) := by simp [encSpriteD4, List.append_assoc]
+  rw [e]; exact raw_u8_at _ _ _ _ (by simp)
+
+theorem d4Sprite_r_flags (s : RawSpriteD4) (h : s.Valid) : Gen.Score.d4Sprite_flags.raw (encSpriteD4 s) = .ok (b2i s.flags) := by
+  have e : encSpriteD4 s = (encS .be 2 s.spriteType ++ [s.fg] ++ [s.bg]) ++ (s.flags :: ([s.ink] ++ encS .be 2 s.castId ++ encS .be 2 s.y ++ encS .be 2 s.x ++ encS .be 2 s.height ++ encS .be 2 s.width ++ encU16 s.flag1 ++ encU16 s.flag2)) := by simp [encSpriteD4, List.append_assoc]
+  rw [e]; exact raw_u8_at _ _ _ _ (by simp)
+
+theorem d4Sprite_r_ink_byte (s : RawSpriteD4) (h : s.Valid) : Gen.Score.d4Sprite_ink_byte.raw (encSpriteD4 s) = .ok (b2i s.ink) := by
+  have e : encSpriteD4 s = (encS .be 2 s.spriteType ++ [s.fg] ++ [s.bg] ++ [s.flags]) ++ (s.ink :: (encS .be 2 s.castId ++ encS .be 2 s.y ++ encS .be 2 s.x ++ encS .be 2 s.height ++ encS .be 2 s.width ++ encU16 s.flag1 ++ encU16 s.flag2)) := by simp [encSpriteD4, List.append_assoc]
+  rw [e]; exact raw_u8_at _ _ _ _ (by simp)
+
+theorem d4Sprite_r_castId (s : RawSpriteD4) (h : s.Valid) : Gen.Score.d4Sprite_castId.raw (encSpriteD4 s) = .ok (s.castId) := by
+  have e : encSpriteD4 s = (encS .be 2 s.spriteType ++ [s.fg] ++ [s.bg] ++ [s.flags] ++ [s.ink]) ++ (encS .be 2 s.castId ++ (encS .be 2 s.y ++ encS .be 2 s.x ++ encS .be 2 s.height ++ encS .be 2 s.width ++ encU16 s.flag1 ++ encU16 s.flag2)) := by simp [encSpriteD4, List.append_assoc]
+  rw [e]; exact raw_s16_at _ _ _ (h.2.1) _ (by simp)
+
+theorem d4Sprite_r_y (s : RawSpriteD4) (h : s.Valid) : Gen.Score.d4Sprite_y.raw (encSpriteD4 s) = .ok (s.y) := by
+  have e : encSpriteD4 s = (encS .be 2 s.spriteType ++ [s.fg] ++ [s.bg] ++ [s.flags] ++ [s.ink] ++ encS .be 2 s.castId) ++ (encS .be 2 s.y ++ (encS .be 2 s.x ++ encS .be 2 s.height ++ encS .be 2 s.width ++ encU16 s.flag1 ++ encU16 s.flag2)) := by simp [encSpriteD4, List.append_assoc]
+  rw [e]; exact raw_s16_at _ _ _ (h.2.2.1) _ (by simp)
+
+theorem d4Sprite_r_x (s : RawSpriteD4) (h : s.Valid) : Gen.Score.d4Sprite_x.raw (encSpriteD4 s) = .ok (s.x) := by
+  have e : encSpriteD4 s = (encS .be 2 s.spriteType ++ [s.fg] ++ [s.bg] ++ [s.flags] ++ [s.ink] ++ encS .be 2 s.castId ++ encS .be 2 s.y) ++ (encS .be 2 s.x ++ (encS .be 2 s.height ++ encS .be 2 s.width ++ encU16 s.flag1 ++ encU16 s.flag2)) := by simp [encSpriteD4, List.append_assoc]
+  rw [e]; exact raw_s16_at _ _ _ (h.2.2.2.1) _ (by simp)
+
+theorem d4Sprite_r_height (s : RawSpriteD4) (h : s.Valid) : Gen.Score.d4Sprite_height.raw (encSpriteD4 s) = .ok (s.height) := by
+  have e : encSpriteD4 s = (encS .be 2 s.spriteType ++ [s.fg] ++ [s.bg] ++ [s.flags] ++ [s.ink] ++ encS .be 2 s.castId ++ encS .be 2 s.y ++ encS .be 2 s.x) ++ (encS .be 2 s.height ++ (encS .be 2 s.width ++ encU16 s.flag1 ++ encU16 s.flag2)) := by simp [encSpriteD4, List.append_assoc]
+  rw [e]; exact raw_s16_at _ _ _ (h.2.2.2.2.1) _ (by simp)
+
+theorem d4Sprite_r_width (s : RawSpriteD4) (h : s.Valid) : Gen.Score.d4Sprite_width.raw (encSpriteD4 s) = .ok (s.width) := by
+  have e : encSpriteD4 s = (encS .be 2 s.spriteType ++ [s.fg] ++ [s.bg] ++ [s.flags] ++ [s.ink] ++ encS .be 2 s.castId ++ encS .be 2 s.y ++ encS .be 2 s.x ++ encS .be 2 s.height) ++ (encS .be 2 s.width ++ (encU16 s.flag1 ++ encU16 s.flag2)) := by simp [encSpriteD4, List.append_assoc]
+  rw [e]; exact raw_s16_at _ _ _ (h.2.2.2.2.2.1) _ (by simp)
+
+theorem d4Sprite_r_flag1 (s : RawSpriteD4) (h : s.Valid) : Gen.Score.d4Sprite_flag1.raw (encSpriteD4 s) = .ok (toSigned 16 s.flag1) := by
+  have e : encSpriteD4 s = (encS .be 2 s.spriteType ++ [s.fg] ++ [s.bg] ++ [s.flags] ++ [s.ink] ++ encS .be 2 s.castId ++ encS .be 2 s.y ++ encS .be 2 s.x ++ encS .be 2 s.height ++ encS .be 2 s.width) ++ (encU16 s.flag1 ++ (encU16 s.flag2)) := by simp [encSpriteD4, List.append_assoc]
+  rw [e]; exact raw_u16_at _ _ _ (h.2.2.2.2.2.2.1) _ (by simp)
+
+theorem d4Sprite_r_flag2 (s : RawSpriteD4) (h : s.Valid) : Gen.Score.d4Sprite_flag2.raw (encSpriteD4 s) = .ok (toSigned 16 s.flag2) := by
+  have e : encSpriteD4 s = (encS .be 2 s.spriteType ++ [s.fg] ++ [s.bg] ++ [s.flags] ++ [s.ink] ++ encS .be 2 s.castId ++ encS .be 2 s.y ++ encS .be 2 s.x ++ encS .be 2 s.height ++ encS .be 2 s.width ++ encU16 s.flag1) ++ (encU16 s.flag2 ++ ([])) := by simp [encSpriteD4, List.append_assoc]
+  rw [e]; exact raw_u16_at _ _ _ (h.2.2.2.2.2.2.2) _ (by simp)
+
+theorem d4Sprite_check (s : RawSpriteD4) (h : s.Valid) : checkAll Gen.Score.d4Sprite (encSpriteD4 s) = .ok () := by
+  simp only [Gen.Score.d4Sprite, checkAll, d4Sprite_r_spriteType s h, d4Sprite_r_foregroundColor s h, d4Sprite_r_backgroundColor s h, d4Sprite_r_flags s h, d4Sprite_r_ink_byte s h, d4Sprite_r_castId s h, d4Sprite_r_y s h, d4Sprite_r_x s h, d4Sprite_r_height s h, d4Sprite_r_width s h, d4Sprite_r_flag1 s h, d4Sprite_r_flag2 s h, bind, Except.bind]
+
 theorem d4ReadSprite_enc (s : RawSpriteD4) (h : s.Valid) : d4ReadSprite (encSpriteD4 s) = .ok (viewSpriteD4 s) := by
-  obtain ⟨h0, h1, h2, h3, h4, h5, h6, h7⟩ := h
-  obtain ⟨a0, b0, e0⟩ := encS2_pair s.spriteType
-  obtain ⟨a1, b1, e1⟩ := encS2_pair s.castId
-  obtain ⟨a2, b2, e2⟩ := encS2_pair s.y
-  obtain ⟨a3, b3, e3⟩ := encS2_pair s.x
-  obtain ⟨a4, b4, e4⟩ := encS2_pair s.height
-  obtain ⟨a5, b5, e5⟩ := encS2_pair s.width
-  obtain ⟨a6, b6, e6⟩ := encU16_pair s.flag1
-  obtain ⟨a7, b7, e7⟩ := encU16_pair s.flag2
-  simp only [encSpriteD4, e0, e1, e2, e3, e4, e5, e6, e7, List.cons_append, List.nil_append]
-  rw [d4ReadSprite_bytes _ _ _ _ _ _ _ _ _ _ _ _ _ _ _ _ _ _ _ _ _ _ _ _ _ _ _ _ (unpack_pair e0 h0) (unpack_pair e1 h1) (unpack_pair e2 h2)
-    (unpack_pair e3 h3) (unpack_pair e4 h4) (unpack_pair e5 h5) (unpack_pairU e6 h6) (unpack_pairU e7 h7)]
-  simp only [viewSpriteD4, toSigned16_mod s.flag2 h7]
+  simp only [d4ReadSprite, d4Sprite_check s h, int_of_raw _ _ (rfl : Gen.Score.d4Sprite_spriteType.post = .raw), d4Sprite_r_spriteType s h, int_of_raw _ _ (rfl : Gen.Score.d4Sprite_foregroundColor.post = .raw), d4Sprite_r_foregroundColor s h, int_of_raw _ _ (rfl : Gen.Score.d4Sprite_backgroundColor.post = .raw), d4Sprite_r_backgroundColor s h, int_of_raw _ _ (rfl : Gen.Score.d4Sprite_flags.post = .raw), d4Sprite_r_flags s h, int_of_raw _ _ (rfl : Gen.Score.d4Sprite_ink_byte.post = .raw), d4Sprite_r_ink_byte s h, int_of_raw _ _ (rfl : Gen.Score.d4Sprite_castId.post = .raw), d4Sprite_r_castId s h, int_of_raw _ _ (rfl : Gen.Score.d4Sprite_y.post = .raw), d4Sprite_r_y s h, int_of_raw _ _ (rfl : Gen.Score.d4Sprite_x.post = .raw), d4Sprite_r_x s h, int_of_raw _ _ (rfl : Gen.Score.d4Sprite_height.post = .raw), d4Sprite_r_height s h, int_of_raw _ _ (rfl : Gen.Score.d4Sprite_width.post = .raw), d4Sprite_r_width s h, int_of_raw _ _ (rfl : Gen.Score.d4Sprite_flag2.post = .raw), d4Sprite_r_flag2 s h, toSigned16_mod s.flag2 (h.2.2.2.2.2.2.2), bind, Except.bind, pure, Except.pure, viewSpriteD4]
+  split <;> rfl
+
+/-! ### d5ReadMain -/
+
+theorem encMainD5_length (s : RawMainD5) (h : s.Valid) : (encMainD5 s).length = 24 := by
+  simp [encMainD5]
+
+theorem d5Main_r_unknown01 (s : RawMainD5) (h : s.Valid) : Gen.Score.d5Main_unknown01.raw (encMainD5 s) = .ok (s.unknown01) := by
+  have e : encMainD5 s = ([]) ++ (encS .be 2 s.unknown01 ++ (encS .be 2 s.script ++ encS .be 2 s.unknown03 ++ encS .be 2 s.sound1 ++ encS .be 2 s.unknown05 ++ encS .be 2 s.sound2 ++ encS .be 2 s.unknown07 ++ encS .be 2 s.transCast ++ encS .be 2 s.unknown08 ++ encS .be 2 s.unknown09 ++ encS .be 2 s.fps ++ encS .be 2 s.unknown10)) := by simp [encMainD5, List.append_assoc]
+  rw [e]; exact raw_s16_at _ _ _ (h.1) _ (by simp)
+
+theorem d5Main_r_script (s : RawMainD5) (h : s.Valid) : Gen.Score.d5Main_script.raw (encMainD5 s) = .ok (s.script) := by
+  have e : encMainD5 s = (encS .be 2 s.unknown01) ++ (encS .be 2 s.script ++ (encS .be 2 s.unknown03 ++ encS .be 2 s.sound1 ++ encS .be 2 s.unknown05 ++ encS .be 2 s.sound2 ++ encS .be 2 s.unknown07 ++ encS .be 2 s.transCast ++ encS .be 2 s.unknown08 ++ encS .be 2 s.unknown09 ++ encS .be 2 s.fps ++ encS .be 2 s.unknown10)) := by simp [encMainD5, List.append_assoc]
+  rw [e]; exact raw_s16_at _ _ _ (h.2.1) _ (by simp)
+
+theorem d5Main_r_unknown03 (s : RawMainD5) (h : s.Valid) : Gen.Score.d5Main_unknown03.raw (encMainD5 s) = .ok (s.unknown03) := by
+  have e : encMainD5 s = (encS .be 2 s.unknown01 ++ encS .be 2 s.script) ++ (encS .be 2 s.unknown03 ++ (encS .be 2 s.sound1 ++ encS .be 2 s.unknown05 ++ encS .be 2 s.sound2 ++ encS .be 2 s.unknown07 ++ encS .be 2 s.transCast ++ encS .be 2 s.unknown08 ++ encS .be 2 s.unknown09 ++ encS .be 2 s.fps ++ encS .be 2 s.unknown10)) := by simp [encMainD5, List.append_assoc]
+  rw [e]; exact raw_s16_at _ _ _ (h.2.2.1) _ (by simp)
+
+theorem d5Main_r_sound1_cast (s : RawMainD5) (h : s.Valid) : Gen.Score.d5Main_sound1_cast.raw (encMainD5 s) = .ok (s.sound1) := by
+  have e : encMainD5 s = (encS .be 2 s.unknown01 ++ encS .be 2 s.script ++ encS .be 2 s.unknown03) ++ (encS .be 2 s.sound1 ++ (encS .be 2 s.unknown05 ++ encS .be 2 s.sound2 ++ encS .be 2 s.unknown07 ++ encS .be 2 s.transCast ++ encS .be 2 s.unknown08 ++ encS .be 2 s.unknown09 ++ encS .be 2 s.fps ++ encS .be 2 s.unknown10)) := by simp [encMainD5, List.append_assoc]
+  rw [e]; exact raw_s16_at _ _ _ (h.2.2.2.1) _ (by simp)
+
+theorem d5Main_r_unknown05 (s : RawMainD5) (h : s.Valid) : Gen.Score.d5Main_unknown05.raw (encMainD5 s) = .ok (s.unknown05) := by
+  have e : encMainD5 s = (encS .be 2 s.unknown01 ++ encS .be 2 s.script ++ encS .be 2 s.unknown03 ++ encS .be 2 s.sound1) ++ (encS .be 2 s.unknown05 ++ (encS .be 2 s.sound2 ++ encS .be 2 s.unknown07 ++ encS .be 2 s.transCast ++ encS .be 2 s.unknown08 ++ encS .be 2 s.unknown09 ++ encS .be 2 s.fps ++ encS .be 2 s.unknown10)) := by simp [encMainD5, List.append_assoc]
+  rw [e]; exact raw_s16_at _ _ _ (h.2.2.2.2.1) _ (by simp)
+
+theorem d5Main_r_sound2_cast (s : RawMainD5) (h : s.Valid) : Gen.Score.d5Main_sound2_cast.raw (encMainD5 s) = .ok (s.sound2) := by
+  have e : encMainD5 s = (encS .be 2 s.unknown01 ++ encS .be 2 s.script ++ encS .be 2 s.unknown03 ++ encS .be 2 s.sound1 ++ encS .be 2 s.unknown05) ++ (encS .be 2 s.sound2 ++ (encS .be 2 s.unknown07 ++ encS .be 2 s.transCast ++ encS .be 2 s.unknown08 ++ encS .be 2 s.unknown09 ++ encS .be 2 s.fps ++ encS .be 2 s.unknown10)) := by simp [encMainD5, List.append_assoc]
+  rw [e]; exact raw_s16_at _ _ _ (h.2.2.2.2.2.1) _ (by simp)
+
+theorem d5Main_r_unknown07 (s : RawMainD5) (h : s.Valid) : Gen.Score.d5Main_unknown07.raw (encMainD5 s) = .ok (s.unknown07) := by
+  have e : encMainD5 s = (encS .be 2 s.unknown01 ++ encS .be 2 s.script ++ encS .be 2 s.unknown03 ++ encS .be 2 s.sound1 ++ encS .be 2 s.unknown05 ++ encS .be 2 s.sound2) ++ (encS .be 2 s.unknown07 ++ (encS .be 2 s.transCast ++ encS .be 2 s.unknown08 ++ encS .be 2 s.unknown09 ++ encS .be 2 s.fps ++ encS .be 2 s.unknown10)) := by simp [encMainD5, List.append_assoc]
+  rw [e]; exact raw_s16_at _ _ _ (h.2.2.2.2.2.2.1) _ (by simp)
+
+theorem d5Main_r_transition_cast_id (s : RawMainD5) (h : s.Valid) : Gen.Score.d5Main_transition_cast_id.raw (encMainD5 s) = .ok (s.transCast) := by
+  have e : encMainD5 s = (encS .be 2 s.unknown01 ++ encS .be 2 s.script ++ encS .be 2 s.unknown03 ++ encS .be 2 s.sound1 ++ encS .be 2 s.unknown05 ++ encS .be 2 s.sound2 ++ encS .be 2 s.unknown07) ++ (encS .be 2 s.transCast ++ (encS .be 2 s.unknown08 ++ encS .be 2 s.unknown09 ++ encS .be 2 s.fps ++ encS .be 2 s.unknown10)) := by simp [encMainD5, List.append_assoc]
+  rw [e]; exact raw_s16_at _ _ _ (h.2.2.2.2.2.2.2.1) _ (by simp)
+
+theorem d5Main_r_unknown08 (s : RawMainD5) (h : s.Valid) : Gen.Score.d5Main_unknown08.raw (encMainD5 s) = .ok (s.unknown08) := by
+  have e : encMainD5 s = (encS .be 2 s.unknown01 ++ encS .be 2 s.script ++ encS .be 2 s.unknown03 ++ encS .be 2 s.sound1 ++ encS .be 2 s.unknown05 ++ encS .be 2 s.sound2 ++ encS .be 2 s.unknown07 ++ encS .be 2 s.transCast) ++ (encS .be 2 s.unknown08 ++ (encS .be 2 s.unknown09 ++ encS .be 2 s.fps ++ encS .be 2 s.unknown10)) := by simp [encMainD5, List.append_assoc]
+  rw [e]; exact raw_s16_at _ _ _ (h.2.2.2.2.2.2.2.2.1) _ (by simp)
+
+theorem d5Main_r_unknown09 (s : RawMainD5) (h : s.Valid) : Gen.Score.d5Main_unknown09.raw (encMainD5 s) = .ok (s.unknown09) := by
+  have e : encMainD5 s = (encS .be 2 s.unknown01 ++ encS .be 2 s.script ++ encS .be 2 s.unknown03 ++ encS .be 2 s.sound1 ++ encS .be 2 s.unknown05 ++ encS .be 2 s.sound2 ++ encS .be 2 s.unknown07 ++ encS .be 2 s.transCast ++ encS .be 2 s.unknown08) ++ (encS .be 2 s.unknown09 ++ (encS .be 2 s.fps ++ encS .be 2 s.unknown10)) := by simp [encMainD5, List.append_assoc]
+  rw [e]; exact raw_s16_at _ _ _ (h.2.2.2.2.2.2.2.2.2.1) _ (by simp)
+
+theorem d5Main_r_fps (s : RawMainD5) (h : s.Valid) : Gen.Score.d5Main_fps.raw (encMainD5 s) = .ok (s.fps) := by
+  have e : encMainD5 s = (encS .be 2 s.unknown01 ++ encS .be 2 s.script ++ encS .be 2 s.unknown03 ++ encS .be 2 s.sound1 ++ encS .be 2 s.unknown05 ++ encS .be 2 s.sound2 ++ encS .be 2 s.unknown07 ++ encS .be 2 s.transCast ++ encS .be 2 s.unknown08 ++ encS .be 2 s.unknown09) ++ (encS .be 2 s.fps ++ (encS .be 2 s.unknown10)) := by simp [encMainD5, List.append_assoc]
+  rw [e]; exact raw_s16_at _ _ _ (h.2.2.2.2.2.2.2.2.2.2.1) _ (by simp)
+
+theorem d5Main_r_unknown10 (s : RawMainD5) (h : s.Valid) : Gen.Score.d5Main_unknown10.raw (encMainD5 s) = .ok (s.unknown10) := by
+  have e : encMainD5 s = (encS .be 2 s.unknown01 ++ encS .be 2 s.script ++ encS .be 2 s.unknown03 ++ encS .be 2 s.sound1 ++ encS .be 2 s.unknown05 ++ encS .be 2 s.sound2 ++ encS .be 2 s.unknown07 ++ encS .be 2 s.transCast ++ encS .be 2 s.unknown08 ++ encS .be 2 s.unknown09 ++ encS .be 2 s.fps) ++ (encS .be 2 s.unknown10 ++ ([])) := by simp [encMainD5, List.append_assoc]
+  rw [e]; exact raw_s16_at _ _ _ (h.2.2.2.2.2.2.2.2.2.2.2) _ (by simp)
+
+theorem d5Main_check (s : RawMainD5) (h : s.Valid) : checkAll Gen.Score.d5Main (encMainD5 s) = .ok () := by
+  simp only [Gen.Score.d5Main, checkAll, d5Main_r_unknown01 s h, d5Main_r_script s h, d5Main_r_unknown03 s h, d5Main_r_sound1_cast s h, d5Main_r_unknown05 s h, d5Main_r_sound2_cast s h, d5Main_r_unknown07 s h, d5Main_r_transition_cast_id s h, d5Main_r_unknown08 s h, d5Main_r_unknown09 s h, d5Main_r_fps s h, d5Main_r_unknown10 s h, bind, Except.bind]
+
+theorem d5ReadMain_enc (s : RawMainD5) (h : s.Valid) : d5ReadMain (encMainD5 s) = .ok (viewMainD5 s) := by
+  simp only [d5ReadMain, d5Main_check s h, int_of_raw _ _ (rfl : Gen.Score.d5Main_script.post = .raw), d5Main_r_script s h, int_of_raw _ _ (rfl : Gen.Score.d5Main_sound1_cast.post = .raw), d5Main_r_sound1_cast s h, int_of_raw _ _ (rfl : Gen.Score.d5Main_sound2_cast.post = .raw), d5Main_r_sound2_cast s h, int_of_raw _ _ (rfl : Gen.Score.d5Main_transition_cast_id.post = .raw), d5Main_r_transition_cast_id s h, int_of_raw _ _ (rfl : Gen.Score.d5Main_fps.post = .raw), d5Main_r_fps s h, bind, Except.bind, pure, Except.pure, viewMainD5]
+  split <;> rfl
+
+/-! ### d5ReadPalette -/
+
+theorem encPalD5_length (s : RawPalD5) (h : s.Valid) : (encPalD5 s).length = 24 := by
+  simp [encPalD5, h.2.2.2.2.2]
+
+theorem d5Palette_r_unknown01 (s : RawPalD5) (h : s.Valid) : Gen.Score.d5Palette_unknown01.raw (encPalD5 s) = .ok (s.unknown01) := by
+  have e : encPalD5 s = ([]) ++ (encS .be 2 s.unknown01 ++ (encS .be 2 s.paletteId ++ [s.fps] ++ [s.opcode] ++ encS .be 2 s.unknown02 ++ encS .be 2 s.unknown03 ++ encS .be 2 s.cycles ++ s.pad)) := by simp [encPalD5, List.append_assoc]
+  rw [e]; exact raw_s16_at _ _ _ (h.1) _ (by simp)
+
+theorem d5Palette_r_palette_id (s : RawPalD5) (h : s.Valid) : Gen.Score.d5Palette_palette_id.raw (encPalD5 s) = .ok (s.paletteId) := by
+  have e : encPalD5 s = (encS .be 2 s.unknown01) ++ (encS .be 2 s.paletteId ++ ([s.fps] ++ [s.opcode] ++ encS .be 2 s.unknown02 ++ encS .be 2 s.unknown03 ++ encS .be 2 s.cycles ++ s.pad)) := by simp [encPalD5, List.append_assoc]
+  rw [e]; exact raw_s16_at _ _ _ (h.2.1) _ (by simp)
+
+theorem d5Palette_r_fps (s : RawPalD5) (h : s.Valid) : Gen.Score.d5Palette_fps.raw (encPalD5 s) = .ok (b2i s.fps) := by
+  have e : encPalD5 s = (encS .be 2 s.unknown01 ++ encS .be 2 s.paletteId) ++ (s.fps :: ([s.opcode] ++ encS .be 2 s.unknown02 ++ encS .be 2 s.unknown03 ++ encS .be 2 s.cycles ++ s.pad)) := by simp [encPalD5, List.append_assoc]
+  rw [e]; exact raw_u8_at _ _ _ _ (by simp)
+
+theorem d5Palette_r_operation_code (s : RawPalD5) (h : s.Valid) : Gen.Score.d5Palette_operation_code.raw (encPalD5 s) = .ok (b2i s.opcode) := by
+  have e : encPalD5 s = (encS .be 2 s.unknown01 ++ encS .be 2 s.paletteId ++ [s.fps]) ++ (s.opcode :: (encS .be 2 s.unknown02 ++ encS .be 2 s.unknown03 ++ encS .be 2 s.cycles ++ s.pad)) := by simp [encPalD5, List.append_assoc]
+  rw [e]; exact raw_u8_at _ _ _ _ (by simp)
+
+theorem d5Palette_r_unknown02 (s : RawPalD5) (h : s.Valid) : Gen.Score.d5Palette_unknown02.raw (encPalD5 s) = .ok (s.unknown02) := by
+  have e : encPalD5 s = (encS .be 2 s.unknown01 ++ encS .be 2 s.paletteId ++ [s.fps] ++ [s.opcode]) ++ (encS .be 2 s.unknown02 ++ (encS .be 2 s.unknown03 ++ encS .be 2 s.cycles ++ s.pad)) := by simp [encPalD5, List.append_assoc]
+  rw [e]; exact raw_s16_at _ _ _ (h.2.2.1) _ (by simp)
+
+theorem d5Palette_r_unknown03 (s : RawPalD5) (h : s.Valid) : Gen.Score.d5Palette_unknown03.raw (encPalD5 s) = .ok (s.unknown03) := by
+  have e : encPalD5 s = (encS .be 2 s.unknown01 ++ encS .be 2 s.paletteId ++ [s.fps] ++ [s.opcode] ++ encS .be 2 s.unknown02) ++ (encS .be 2 s.unknown03 ++ (encS .be 2 s.cycles ++ s.pad)) := by simp [encPalD5, List.append_assoc]
+  rw [e]; exact raw_s16_at _ _ _ (h.2.2.2.1) _ (by simp)
+
+theorem d5Palette_r_cycles (s : RawPalD5) (h : s.Valid) : Gen.Score.d5Palette_cycles.raw (encPalD5 s) = .ok (s.cycles) := by
+  have e : encPalD5 s = (encS .be 2 s.unknown01 ++ encS .be 2 s.paletteId ++ [s.fps] ++ [s.opcode] ++ encS .be 2 s.unknown02 ++ encS .be 2 s.unknown03) ++ (encS .be 2 s.cycles ++ (s.pad)) := by simp [encPalD5, List.append_assoc]
+  rw [e]; exact raw_s16_at _ _ _ (h.2.2.2.2.1) _ (by simp)
+
+theorem d5Palette_check (s : RawPalD5) (h : s.Valid) : checkAll Gen.Score.d5Palette (encPalD5 s) = .ok () := by
+  simp only [Gen.Score.d5Palette, checkAll, d5Palette_r_unknown01 s h, d5Palette_r_palette_id s h, d5Palette_r_fps s h, d5Palette_r_operation_code s h, d5Palette_r_unknown02 s h, d5Palette_r_unknown03 s h, d5Palette_r_cycles s h, bind, Except.bind]
+
+theorem d5ReadPalette_enc (s : RawPalD5) (h : s.Valid) : d5ReadPalette (encPalD5 s) = .ok (viewPalD5 s) := by
+  simp only [d5ReadPalette, d5Palette_check s h, int_of_raw _ _ (rfl : Gen.Score.d5Palette_palette_id.post = .raw), d5Palette_r_palette_id s h, int_of_raw _ _ (rfl : Gen.Score.d5Palette_fps.post = .raw), d5Palette_r_fps s h, int_of_raw _ _ (rfl : Gen.Score.d5Palette_operation_code.post = .raw), d5Palette_r_operation_code s h, int_of_raw _ _ (rfl : Gen.Score.d5Palette_cycles.post = .raw), d5Palette_r_cycles s h, bind, Except.bind, pure, Except.pure, viewPalD5]
+  split <;> rfl
+
+/-! ### d5ReadSprite -/
+
+theorem encSpriteD5_length (s : RawSpriteD5) (h : s.Valid) : (encSpriteD5 s).length = 24 := by
+  simp [encSpriteD5]
+
+theorem d5Sprite_r_unknown01 (s : RawSpriteD5) (h : s.Valid) : Gen.Score.d5Sprite_unknown01.raw (encSpriteD5 s) = .ok (b2i s.unknown01) := by
+  have e : encSpriteD5 s = ([]) ++ (s.unknown01 :: ([s.ink] ++ encS .be 2 s.spriteType ++ encS .be 2 s.castId ++ encS .be 2 s.unknown02 ++ encS .be 2 s.unknown03 ++ [s.fg] ++ [s.bg] ++ encS .be 2 s.y ++ encS .be 2 s.x ++ encS .be 2 s.height ++ encS .be 2 s.width ++ encU16 s.flag2 ++ encU16 s.flag1)) := by simp [encSpriteD5, List.append_assoc]
+  rw [e]; exact raw_u8_at _ _ _ _ (by simp)
+
+theorem d5Sprite_r_ink_byte (s : RawSpriteD5) (h : s.Valid) : Gen.Score.d5Sprite_ink_byte.raw (encSpriteD5 s) = .ok (b2i s.ink) := by
+  have e : encSpriteD5 s = ([s.unknown01]) ++ (s.ink :: (encS .be 2 s.spriteType ++ encS .be 2 s.castId ++ encS .be 2 s.unknown02 ++ encS .be 2 s.unknown03 ++ [s.fg] ++ [s.bg] ++ encS .be 2 s.y ++ encS .be 2 s.x ++ encS .be 2 s.height ++ encS .be 2 s.width ++ encU16 s.flag2 ++ encU16 s.flag1)) := by simp [encSpriteD5, List.append_assoc]
+  rw [e]; exact raw_u8_at _ _ _ _ (by simp)
+
+theorem d5Sprite_r_spriteType (s : RawSpriteD5) (h : s.Valid) : Gen.Score.d5Sprite_spriteType.raw (encSpriteD5 s) = .ok (s.spriteType) := by
+  have e : encSpriteD5 s = ([s.unknown01] ++ [s.ink]) ++ (encS .be 2 s.spriteType ++ (encS .be 2 s.castId ++ encS .be 2 s.unknown02 ++ encS .be 2 s.unknown03 ++ [s.fg] ++ [s.bg] ++ encS .be 2 s.y ++ encS .be 2 s.x ++ encS .be 2 s.height ++ encS .be 2 s.width ++ encU16 s.flag2 ++ encU16 s.flag1)) := by simp [encSpriteD5, List.append_assoc]
+  rw [e]; exact raw_s16_at _ _ _ (h.1) _ (by simp)
+
+theorem d5Sprite_r_castId (s : RawSpriteD5) (h : s.Valid) : Gen.Score.d5Sprite_castId.raw (encSpriteD5 s) = .ok (s.castId) := by
+  have e : encSpriteD5 s = ([s.unknown01] ++ [s.ink] ++ encS .be 2 s.spriteType) ++ (encS .be 2 s.castId ++ (encS .be 2 s.unknown02 ++ encS .be 2 s.unknown03 ++ [s.fg] ++ [s.bg] ++ encS .be 2 s.y ++ encS .be 2 s.x ++ encS .be 2 s.height ++ encS .be 2 s.width ++ encU16 s.flag2 ++ encU16 s.flag1)) := by simp [encSpriteD5, List.append_assoc]
+  rw [e]; exact raw_s16_at _ _ _ (h.2.1) _ (by simp)
+
+theorem d5Sprite_r_unknown02 (s : RawSpriteD5) (h : s.Valid) : Gen.Score.d5Sprite_unknown02.raw (encSpriteD5 s) = .ok (s.unknown02) := by
+  have e : encSpriteD5 s = ([s.unknown01] ++ [s.ink] ++ encS .be 2 s.spriteType ++ encS .be 2 s.castId) ++ (encS .be 2 s.unknown02 ++ (encS .be 2 s.unknown03 ++ [s.fg] ++ [s.bg] ++ encS .be 2 s.y ++ encS .be 2 s.x ++ encS .be 2 s.height ++ encS .be 2 s.width ++ encU16 s.flag2 ++ encU16 s.flag1)) := by simp [encSpriteD5, List.append_assoc]
+  rw [e]; exact raw_s16_at _ _ _ (h.2.2.1) _ (by simp)
+
+theorem d5Sprite_r_unknown03 (s : RawSpriteD5) (h : s.Valid) : Gen.Score.d5Sprite_unknown03.raw (encSpriteD5 s) = .ok (s.unknown03) := by
+  have e : encSpriteD5 s = ([s.unknown01] ++ [s.ink] ++ encS .be 2 s.spriteType ++ encS .be 2 s.castId ++ encS .be 2 s.unknown02) ++ (encS .be 2 s.unknown03 ++ ([s.fg] ++ [s.bg] ++ encS .be 2 s.y ++ encS .be 2 s.x ++ encS .be 2 s.height ++ encS .be 2 s.width ++ encU16 s.flag2 ++ encU16 s.flag1)) := by simp [encSpriteD5, List.append_assoc]
+  rw [e]; exact raw_s16_at _ _ _ (h.2.2.2.1) _ (by simp)
+
+theorem d5Sprite_r_foregroundColor (s : RawSpriteD5) (h : s.Valid) : Gen.Score.d5Sprite_foregroundColor.raw (encSpriteD5 s) = .ok (b2i s.fg) := by
+  have e : encSpriteD5 s = ([s.unknown01] ++ [s.ink] ++ encS .be 2 s.spriteType ++ encS .be 2 s.castId ++ encS .be 2 s.unknown02 ++ encS .be 2 s.unknown03) ++ (s.fg :: ([s.bg] ++ encS .be 2 s.y ++ encS .be 2 s.x ++ encS .be 2 s.height ++ encS .be 2 s.width ++ encU16 s.flag2 ++ encU16 s.flag1)) := by simp [encSpriteD5, List.append_assoc]
+  rw [e]; exact raw_u8_at _ _ _ _ (by simp)
+
+theorem d5Sprite_r_backgroundColor (s : RawSpriteD5) (h : s.Valid) : Gen.Score.d5Sprite_backgroundColor.raw (encSpriteD5 s) = .ok (b2i s.bg) := by
+  have e : encSpriteD5 s = ([s.unknown01] ++ [s.ink] ++ encS .be 2 s.spriteType ++ encS .be 2 s.castId ++ encS .be 2 s.unknown02 ++ encS .be 2 s.unknown03 ++ [s.fg]) ++ (s.bg :: (encS .be 2 s.y ++ encS .be 2 s.x ++ encS .be 2 s.height ++ encS .be 2 s.width ++ encU16 s.flag2 ++ encU16 s.flag1)) := by simp [encSpriteD5, List.append_assoc]
+  rw [e]; exact raw_u8_at _ _ _ _ (by simp)
+
+theorem d5Sprite_r_y (s : RawSpriteD5) (h : s.Valid) : Gen.Score.d5Sprite_y.raw (encSpriteD5 s) = .ok (s.y) := by
+  have e : encSpriteD5 s = ([s.unknown01] ++ [s.ink] ++ encS .be 2 s.spriteType ++ encS .be 2 s.castId ++ encS .be 2 s.unknown02 ++ encS .be 2 s.unknown03 ++ [s.fg] ++ [s.bg]) ++ (encS .be 2 s.y ++ (encS .be 2 s.x ++ encS .be 2 s.height ++ encS .be 2 s.width ++ encU16 s.flag2 ++ encU16 s.flag1)) := by simp [encSpriteD5, List.append_assoc]
+  rw [e]; exact raw_s16_at _ _ _ (h.2.2.2.2.1) _ (by simp)
+
+theorem d5Sprite_r_x (s : RawSpriteD5) (h : s.Valid) : Gen.Score.d5Sprite_x.raw (encSpriteD5 s) = .ok (s.x) := by
+  have e : encSpriteD5 s = ([s.unknown01] ++ [s.ink] ++ encS .be 2 s.spriteType ++ encS .be 2 s.castId ++ encS .be 2 s.unknown02 ++ encS .be 2 s.unknown03 ++ [s.fg] ++ [s.bg] ++ encS .be 2 s.y) ++ (encS .be 2 s.x ++ (encS .be 2 s.height ++ encS .be 2 s.width ++ encU16 s.flag2 ++ encU16 s.flag1)) := by simp [encSpriteD5, List.append_assoc]
+  rw [e]; exact raw_s16_at _ _ _ (h.2.2.2.2.2.1) _ (by simp)
+
+theorem d5Sprite_r_height (s : RawSpriteD5) (h : s.Valid) : Gen.Score.d5Sprite_height.raw (encSpriteD5 s) = .ok (s.height) := by
+  have e : encSpriteD5 s = ([s.unknown01] ++ [s.ink] ++ encS .be 2 s.spriteType ++ encS .be 2 s.castId ++ encS .be 2 s.unknown02 ++ encS .be 2 s.unknown03 ++ [s.fg] ++ [s.bg] ++ encS .be 2 s.y ++ encS .be 2 s.x) ++ (encS .be 2 s.height ++ (encS .be 2 s.width ++ encU16 s.flag2 ++ encU16 s.flag1)) := by simp [encSpriteD5, List.append_assoc]
+  rw [e]; exact raw_s16_at _ _ _ (h.2.2.2.2.2.2.1) _ (by simp)
+
+theorem d5Sprite_r_width (s : RawSpriteD5) (h : s.Valid) : Gen.Score.d5Sprite_width.raw (encSpriteD5 s) = .ok (s.width) := by
+  have e : encSpriteD5 s = ([s.unknown01] ++ [s.ink] ++ encS .be 2 s.spriteType ++ encS .be 2 s.castId ++ encS .be 2 s.unknown02 ++ encS .be 2 s.unknown03 ++ [s.fg] ++ [s.bg] ++ encS .be 2 s.y ++ encS .be 2 s.x ++ encS .be 2 s.height) ++ (encS .be 2 s.width ++ (encU16 s.flag2 ++ encU16 s.flag1)) := by simp [encSpriteD5, List.append_assoc]
+  rw [e]; exact raw_s16_at _ _ _ (h.2.2.2.2.2.2.2.1) _ (by simp)
+
+theorem d5Sprite_r_flag2 (s : RawSpriteD5) (h : s.Valid) : Gen.Score.d5Sprite_flag2.raw (encSpriteD5 s) = .ok (toSigned 16 s.flag2) := by
+  have e : encSpriteD5 s = ([s.unknown01] ++ [s.ink] ++ encS .be 2 s.spriteType ++ encS .be 2 s.castId ++ encS .be 2 s.unknown02 ++ encS .be 2 s.unknown03 ++ [s.fg] ++ [s.bg] ++ encS .be 2 s.y ++ encS .be 2 s.x ++ encS .be 2 s.height ++ encS .be 2 s.width) ++ (encU16 s.flag2 ++ (encU16 s.flag1)) := by simp [encSpriteD5, List.append_assoc]
+  rw [e]; exact raw_u16_at _ _ _ (h.2.2.2.2.2.2.2.2.1) _ (by simp)
+
+theorem d5Sprite_r_flag1 (s : RawSpriteD5) (h : s.Valid) : Gen.Score.d5Sprite_flag1.raw (encSpriteD5 s) = .ok (toSigned 16 s.flag1) := by
+  have e : encSpriteD5 s = ([s.unknown01] ++ [s.ink] ++ encS .be 2 s.spriteType ++ encS .be 2 s.castId ++ encS .be 2 s.unknown02 ++ encS .be 2 s.unknown03 ++ [s.fg] ++ [s.bg] ++ encS .be 2 s.y ++ encS .be 2 s.x ++ encS .be 2 s.height ++ encS .be 2 s.width ++ encU16 s.flag2) ++ (encU16 s.flag1 ++ ([])) := by simp [encSpriteD5, List.append_assoc]
+  rw [e]; exact raw_u16_at _ _ _ (h.2.2.2.2.2.2.2.2.2) _ (by simp)
+
+theorem d5Sprite_check (s : RawSpriteD5) (h : s.Valid) : checkAll Gen.Score.d5Sprite (encSpriteD5 s) = .ok () := by
+  simp only [Gen.Score.d5Sprite, checkAll, d5Sprite_r_unknown01 s h, d5Sprite_r_ink_byte s h, d5Sprite_r_spriteType s h, d5Sprite_r_castId s h, d5Sprite_r_unknown02 s h, d5Sprite_r_unknown03 s h, d5Sprite_r_foregroundColor s h, d5Sprite_r_backgroundColor s h, d5Sprite_r_y s h, d5Sprite_r_x s h, d5Sprite_r_height s h, d5Sprite_r_width s h, d5Sprite_r_flag2 s h, d5Sprite_r_flag1 s h, bind, Except.bind]
+
+theorem d5ReadSprite_enc (s : RawSpriteD5) (h : s.Valid) : d5ReadSprite (encSpriteD5 s) = .ok (viewSpriteD5 s) := by
+  simp only [d5ReadSprite, d5Sprite_check s h, int_of_raw _ _ (rfl : Gen.Score.d5Sprite_ink_byte.post = .raw), d5Sprite_r_ink_byte s h, int_of_raw _ _ (rfl : Gen.Score.d5Sprite_spriteType.post = .raw), d5Sprite_r_spriteType s h, int_of_raw _ _ (rfl : Gen.Score.d5Sprite_castId.post = .raw), d5Sprite_r_castId s h, int_of_raw _ _ (rfl : Gen.Score.d5Sprite_foregroundColor.post = .raw), d5Sprite_r_foregroundColor s h, int_of_raw _ _ (rfl : Gen.Score.d5Sprite_backgroundColor.post = .raw), d5Sprite_r_backgroundColor s h, int_of_raw _ _ (rfl : Gen.Score.d5Sprite_y.post = .raw), d5Sprite_r_y s h, int_of_raw _ _ (rfl : Gen.Score.d5Sprite_x.post = .raw), d5Sprite_r_x s h, int_of_raw _ _ (rfl : Gen.Score.d5Sprite_height.post = .raw), d5Sprite_r_height s h, int_of_raw _ _ (rfl : Gen.Score.d5Sprite_width.post = .raw), d5Sprite_r_width s h, int_of_raw _ _ (rfl : Gen.Score.d5Sprite_flag2.post = .raw), d5Sprite_r_flag2 s h, toSigned16_mod s.flag2 (h.2.2.2.2.2.2.2.2.1), bind, Except.bind, pure, Except.pure, viewSpriteD5]
+  split <;> rfl
 
 end Drx.Vwsc
